@@ -660,7 +660,7 @@ def cmdC17 (st : State) : Except String (State × List String) := do
         -- attribute 0 is shared with nothing else; a non-pseudo glyph must not carry an actual-glyph value
         out := out ++ [s!"FAIL non-pseudo glyph {g} carries actualForPseudo = {got}"]
   if out.isEmpty then
-    return (st', [s!"ok realGlyphs={n} pseudos={A.pseudos.length} lb={A.lb} phantom={A.phantom} missing={missing.length} classes={classes.size} cmapEndCodesAscending={cmHyp}", "done"])
+    return (st', [s!"ok realGlyphs={n} pseudos={A.pseudos.length} lb={A.lb} phantom={A.phantom} missing={missing.length} classes={classes.size} cmapEndCodesAscending={cmHyp} u0000Unmapped={!(mapped.contains 0)}", "done"])
   return (st', out ++ ["done"])
 
 /-- Renumber the slot references of an expression for the alternative that keeps `kept` (none: refers to an omitted item). -/
